@@ -37,6 +37,20 @@ HINTS = {
     must stay consistent), and what the object does AFTER it reported an error;
   * the earlier rounds already covered: long histories, values 0/None/falsy, huge clocks, two instances alive at once, tables
     changed at run time -- do not rely on those.""",
+    "5": """  * the classic Python slips: a mutable default argument or class-level attribute shared by all instances / all calls, a
+    cache or memo that is never invalidated, a fast path that skips bookkeeping, late-binding closures, `is` vs `==`,
+    truthiness of 0 / empty containers, integer vs true division, sort stability, dict / set iteration order;
+  * a change OUTSIDE the anchor files that reaches the property through them (packet.py, device.py, flow.py, types.py, utils,
+    the package __init__ exports, a base class or mix-in);
+  * something that shows only when two or more elements are COMPOSED (an element inside a switch, a pipeline of three devices,
+    TCP over ports / schedulers / lossy wires, a scheduler feeding a token bucket) although each element alone looks right;
+  * the first or the last of something (first packet of a flow, the last packet, exactly one element, ids or counters that wrap
+    around or restart), values of unusual numeric type (bool, Fraction, Decimal, numpy-like scalars);
+  * behaviour AFTER an exception was raised and caught by the caller, after an object was stopped / finished / drained and is
+    used again, or when a method is called before the simulation has started;
+  * the earlier rounds already covered: long histories, 0 / None / falsy configuration values, huge clocks, two instances alive
+    at once, tables changed at run time, re-entrant next hops, the same object passing twice, events coinciding inside one
+    instant, equality-with-everything values, interrupts from plain callbacks -- do not rely on those.""",
 }
 
 
